@@ -44,7 +44,7 @@ def sym_reader(it, cls, suffix, itemsize, online=False):
         n0 = z3.Int("nbytes_at_init")
         it.ctx.assume(z3.And(n0 >= 0, n0 <= nbytes))
         cached = SV(n0)
-    obj = SObj(cls, file_bin=path, nbytes=cached, dtype=dtype, meta=meta, ignore_warnings=True, ch_file=None, _raw=None)
+    obj = SObj(cls, file_bin=path, nbytes=cached, dtype=dtype, meta=meta, ignore_warnings=SV(z3.Bool("ignore_warnings")), ch_file=None, _raw=None)
     return obj, nbytes, nc, rate, ftsec
 
 
@@ -75,7 +75,10 @@ def replay_open(vals, oid, cls=None, itemsize=2):
     out = {"inputs": {"nbytes": nbytes, "nc": nc, "fs": fs, "claimed_ns": claimed, "itemsize": itemsize}}
     try:
         kls = cls or spikeglx.Reader
-        sr = kls(b, ignore_warnings=True, dtype="int16" if itemsize == 2 else "float32")
+        iw = vals.get("ignore_warnings", True)
+        iw = True if not isinstance(iw, bool) else iw
+        out["inputs"]["ignore_warnings"] = iw
+        sr = kls(b, ignore_warnings=iw, dtype="int16" if itemsize == 2 else "float32")
         want = nbytes // (nc * itemsize)
         out["ns"], out["expected_ns"] = sr.ns, want
         ok = sr.ns == want and sr._raw.shape == (want, nc)
@@ -98,7 +101,7 @@ def _open_harness(H, itemsize):
 
     def body(it):
         obj, nbytes, nc, rate, ftsec = sym_reader(it, spikeglx.Reader, ".bin", itemsize)
-        H.input(nbytes=nbytes, nc=nc, fs=rate, fileTimeSecs=ftsec)
+        H.input(nbytes=nbytes, nc=nc, fs=rate, fileTimeSecs=ftsec, ignore_warnings=z3.Bool("ignore_warnings"))
         run_function(it, spikeglx.Reader.open, [obj])
         ns = term(it.getattr(obj, "ns"))
         frame = nc * itemsize
@@ -277,7 +280,7 @@ def h_cbin(H):
 
 
 @bounded(PROPERTY, "native_truncation", bound="nc in {1,2,5,17,385}, 1..5 complete frames + every trailing byte count 0..frame-1 (quick: sampled to <=12 per nc), "
-         "announced length in {exact, -1, +3, 0}, fs in {30000, 2500, 30000.533, 1953.1}, Reader + OnlineReader; .cbin streams of 7000 / 45000 samples announced as 9000 / 5000 / 90000, .ch rate == / != metadata rate, ignore_warnings on / off; large ns up to 3e9 for the ns->fileTimeSecs->ns round trip",
+         "announced length in {exact, -1, +3, 0}, fs in {30000, 2500, 30000.533, 1953.1}, Reader + OnlineReader; float32 files and int16 files with warnings on (nc in {1,3,17}); .cbin streams of 7000 / 45000 samples announced as 9000 / 5000 / 90000, .ch rate == / != metadata rate, ignore_warnings on / off; large ns up to 3e9 for the ns->fileTimeSecs->ns round trip",
          clause="file-level replay of truncation; binary64 round trip of the sample count")
 def b_native(B):
     for nc in (1, 2, 5, 17, 385):
@@ -293,6 +296,18 @@ def b_native(B):
                             r = replay_open({"nbytes": nbytes, "nc": nc, "fs": fs, "fileTimeSecs": claimed / fs}, "", cls, 2)
                             B.case((nc, nfr, t, claimed, fs, cls.__name__), not r["failed"], detail=r,
                                    inputs={"nbytes": nbytes, "nc": nc, "fs": fs, "fileTimeSecs": claimed / fs})
+    # 4-byte samples and warnings left on: same law (the frame is channels x bytes per sample, whatever the option)
+    for itemsize, iw in ((4, True), (4, False), (2, False)):
+        for nc in (1, 3, 17):
+            frame = nc * itemsize
+            for nfr in (1, 5):
+                for t in sorted({0, 1, frame // 2, frame - 1}):
+                    for claimed_delta in (0, -1, 3):
+                        for cls in (spikeglx.Reader, spikeglx.OnlineReader):
+                            nbytes, claimed = nfr * frame + t, max(nfr + claimed_delta, 0)
+                            v = {"nbytes": nbytes, "nc": nc, "fs": 30000.0, "fileTimeSecs": claimed / 30000.0, "ignore_warnings": iw}
+                            r = replay_open(v, "", cls, itemsize)
+                            B.case((nc, nfr, t, claimed, itemsize, iw, cls.__name__), not r["failed"], detail=r, inputs=v)
     r = replay_cbin({}, "")
     B.case("compressed_stream_length_disagrees_with_metadata", not r["failed"], detail=r)
     # several readers alive on the same recording while it grows / on two binaries sharing one metadata file: each reader keeps exposing
